@@ -89,7 +89,9 @@ def createNextTable (k : Kind) (s : St) (tbl : Word) (i : Nat) (pflags : Word) :
     match s.alloc with
     | (none, s) => (.ok (.error .allocFailed), s)
     | (some frame, s) =>
-      let fl := if k.recursive then Pte.PRESENT ||| Pte.WRITABLE ||| pflags else pflags
+      -- a new table is linked PRESENT whatever flags were requested (`fix:` commit F9); the recursive
+      -- mapper also adds WRITABLE
+      let fl := if k.recursive then Pte.PRESENT ||| Pte.WRITABLE ||| pflags else Pte.PRESENT ||| pflags
       -- `set_frame` asserts 4 KiB alignment of the allocated frame
       if !Pte.aligned4K frame then (.panic, s) else
       let s := s.wr tbl i (Pte.mk frame fl)
